@@ -595,8 +595,11 @@ def do_check(prop, P, tier, seed):
                             known_findings_hit=[k['desc'] for k, _ in known_hits], flaky=[f[1].get('message', '')[:200] for f in flaky],
                             incomplete=incomplete),
               assumptions=P.get('assumptions', []), wall_s=round(wall, 2), violations=len(violations))
-    os.makedirs(os.path.join(ROOT, 'evidence'), exist_ok=True)
-    with open(os.path.join(ROOT, 'evidence', prop + '.json'), 'w') as f:
+    # VERIF_EVIDENCE_DIR: development only (the seeded-change audit runs against modified trees and must not
+    # overwrite the evidence of the real tree)
+    evdir = os.environ.get('VERIF_EVIDENCE_DIR', os.path.join(ROOT, 'evidence'))
+    os.makedirs(evdir, exist_ok=True)
+    with open(os.path.join(evdir, prop + '.json'), 'w') as f:
         json.dump(ev, f, indent=1)
     shutil.rmtree(outdir, ignore_errors=True) if not (violations or flaky or incomplete) else None
 
